@@ -204,7 +204,8 @@ def parseADecl (s : String) : Option ADecl :=
   | ["S", n, es] => do
     let n ← n.toNat?
     let es ← optAll (fun e => match e.splitOn "." with
-      | [a, t] => do let a ← a.toNat?; let t ← parseTy t; pure (a, t)
+      | [a, t] => do let a ← a.toNat?; let t ← parseTy t; pure (a, t, none)
+      | [a, t, i] => do let a ← a.toNat?; let t ← parseTy t; let i ← parseOptNat i; pure (a, t, i)
       | _ => none) (splitNE es ",")
     pure (.structT n es)
   | ["R", n, lo, hi] => do let n ← n.toNat?; let lo ← parseInt' lo; let hi ← parseInt' hi; pure (.subrangeT n lo hi)
